@@ -86,7 +86,9 @@ def bound_consistency_algorithm(
     statistics[STATS_IDX_ALG_BC_NB] += 1
     prop_idx = -1
     while True:
-        prop_idx = pop_propagator(triggered_propagators, prop_idx)
+        # a propagator that has just updated its own variables is run again:
+        # not all propagators are idempotent (affine_eq, a shared domain occurring twice in a propagator)
+        prop_idx = pop_propagator(triggered_propagators, -1)
         if prop_idx == -1:
             return PROBLEM_BOUND if is_solved(shr_domains_stack, stacks_top) else PROBLEM_UNBOUND
         statistics[STATS_IDX_PROPAGATOR_FILTER_NB] += 1
